@@ -159,6 +159,9 @@ type World struct {
 	FaultFor func(cr *ConnRec) Fault
 	tlsRecs  []simtls.DialRecord
 	Chunking bool // split responses into several writes (tape-chosen)
+	// TargetFault ("host|request-target" -> fault) is applied once the request has been read,
+	// for faults that are tied to a resource rather than to a connection ordinal.
+	TargetFault map[string]Fault
 }
 
 func newWorld(r *Run) *World {
@@ -293,6 +296,17 @@ func (w *World) serve(h *Host, cr *ConnRec, ep *simnet.Endpoint) {
 	readRequest(sc, cr)
 	if !cr.ReqDone {
 		ep.Close()
+		return
+	}
+	if f.Kind == FNone && w.TargetFault != nil {
+		if tf, ok := w.TargetFault[strings.ToLower(cr.Host)+"|"+cr.Target]; ok {
+			f = tf
+			cr.Fault = tf
+		}
+	}
+	if f.Kind == FResetBeforeResponse {
+		s.Fault("reset_before_response")
+		ep.Reset()
 		return
 	}
 	if f.Kind == FStallAfterRequest {
